@@ -164,7 +164,8 @@ def split_ranges(intsize, step, start, end):
         nextstart = (start + diff if haslower else start) & not_mask
         nextend = (end - diff if hasupper else end) & not_mask
 
-        if shift + step >= intsize or nextstart > nextend:
+        if (shift + step >= intsize or nextstart > nextend
+                or (hasupper and end < diff)):
             yield (start, setbits(end), shift)
             break
 
